@@ -325,6 +325,58 @@ def env_tables() -> List[str]:
     return out
 
 
+# ------------------------------------------------------------------------------------------------- folder: visible health vs flag
+def folder_visible_tables() -> List[str]:
+    """Where `visible_health_status` of a Folder is assigned, and whether `_scanned_this_step = True` follows in the same function, at
+    the block level of the assignment or an enclosing one (the simulator-side condition of C09's folder-cache invariant); where the
+    flag is cleared; and an inventory of every assignment to a `visible_health_status` attribute under simulator/."""
+    from harness.lib.core import SRC
+    tree = parse("simulator/file_system/folder.py")
+    cls = class_def(tree, "Folder")
+    rows = []
+    cleared = []
+    for fn in cls.body:
+        if not isinstance(fn, ast.FunctionDef):
+            continue
+
+        def flag_set_after(block: List[ast.stmt], idx: int) -> bool:
+            for s in block[idx + 1:]:
+                if isinstance(s, ast.Assign) and ast.unparse(s.targets[0]) == "self._scanned_this_step" and ast.unparse(s.value) == "True":
+                    return True
+            return False
+
+        def visit(block: List[ast.stmt], enclosing_ok: bool):
+            for i, s in enumerate(block):
+                here_ok = enclosing_ok or flag_set_after(block, i)
+                if isinstance(s, (ast.Assign, ast.AnnAssign)):
+                    tgt = s.targets[0] if isinstance(s, ast.Assign) else s.target
+                    t = ast.unparse(tgt)
+                    if t == "self.visible_health_status":
+                        rows.append((fn.name, here_ok))
+                    if t == "self._scanned_this_step" and ast.unparse(s.value) == "False" and fn.name != "__init__":
+                        cleared.append(fn.name)
+                for attr in ("body", "orelse", "finalbody"):
+                    sub = getattr(s, attr, None)
+                    if isinstance(sub, list) and sub and isinstance(sub[0], ast.stmt):
+                        visit(sub, here_ok)
+        visit(fn.body, False)
+    out = ["def folderVisibleWriters : List (String × Bool) := " + lean_list([f"({q(a)}, {'true' if b else 'false'})" for a, b in rows]),
+           "def folderFlagClearedIn : List String := " + lean_list([q(x) for x in cleared])]
+    inv = []
+    for f in sorted((SRC / "simulator").rglob("*.py")):
+        rel = str(f.relative_to(SRC))
+        t = ast.parse(f.read_text())
+        for fn in ast.walk(t):
+            if isinstance(fn, ast.FunctionDef):
+                for n in ast.walk(fn):
+                    if isinstance(n, (ast.Assign, ast.AugAssign, ast.AnnAssign)):
+                        for tg in (n.targets if isinstance(n, ast.Assign) else [n.target]):
+                            if isinstance(tg, ast.Attribute) and tg.attr == "visible_health_status":
+                                inv.append(f"{rel}:{fn.name}:{ast.unparse(tg.value)}")
+    out.append("def visibleHealthStatusAssignedIn : List String := " + lean_list([q(x) for x in sorted(set(inv))]))
+    return out
+
+
 # ------------------------------------------------------------------------------------------------- emit
 def emit() -> str:
     trees: Dict[str, ast.Module] = {}
@@ -354,5 +406,7 @@ def emit() -> str:
         out.append(f"def {name}_observeWrites : Bool × Bool × String := ({'true' if wd else 'false'}, {'true' if wc else 'false'}, {q(no)})")
     out.append("")
     out += env_tables()
+    out.append("")
+    out += folder_visible_tables()
     out.append("end Primaite.Gen.ObsCfgTables\n")
     return "\n".join(out)
